@@ -411,6 +411,9 @@ cdef class ZOrderNNPS(NNPS):
 
         cdef uint64_t key
 
+        cdef int d
+        cdef NNPSParticleArrayWrapper other
+
         for i in range(self.narrays):
             n = 0
             pa_wrapper = self.pa_wrappers[i]
@@ -479,6 +482,38 @@ cdef class ZOrderNNPS(NNPS):
                         n += 1
                 else:
                     current_lengths[cid] += 1
+
+            # A destination particle of another array may lie in a cell
+            # that holds no particle of array i.  Such cells have a cid too
+            # (the numbering is shared by all arrays): find their
+            # neighboring boxes in array i as well.
+            for d in range(self.narrays):
+                if d == i:
+                    continue
+                other = self.pa_wrappers[d]
+                for j in range(other.get_number_of_particles()):
+                    key = self.keys[d][j]
+                    if j > 0 and key == self.keys[d][j-1]:
+                        continue
+                    if current_key_to_idx[key] != -1:
+                        # array i has particles in this cell: done above
+                        continue
+                    pid = self.pids[d][j]
+                    cid = self.cids[d][pid]
+
+                    find_cell_id_raw(
+                        other.x.data[pid] - xmin[0],
+                        other.y.data[pid] - xmin[1],
+                        other.z.data[pid] - xmin[2],
+                        self.h_sub,
+                        &c_x, &c_y, &c_z
+                        )
+
+                    num_boxes = self._neighbor_boxes(c_x, c_y, c_z, current_key_to_idx,
+                            num_particles, found_indices)
+
+                    for k in range(num_boxes):
+                        current_nbr_boxes[self.mask_len*cid + k] = found_indices[k]
 
     cdef inline int get_idx(self, uint64_t key, int* key_to_idx) noexcept nogil:
         return -1 if key >= self.max_key else key_to_idx[key]
@@ -741,6 +776,9 @@ cdef class ExtendedZOrderNNPS(ZOrderNNPS):
                 sizeof(int))
         cdef uint64_t key
 
+        cdef int d
+        cdef NNPSParticleArrayWrapper other
+
         for i in range(self.narrays):
             n = 0
             pa_wrapper = self.pa_wrappers[i]
@@ -828,6 +866,39 @@ cdef class ExtendedZOrderNNPS(ZOrderNNPS):
                         n += 1
                 else:
                     current_lengths[cid] += 1
+
+            # A destination particle of another array may lie in a cell
+            # that holds no particle of array i.  Such cells have a cid too
+            # (the numbering is shared by all arrays): find their
+            # neighboring boxes in array i as well.
+            for d in range(self.narrays):
+                if d == i:
+                    continue
+                other = self.pa_wrappers[d]
+                for j in range(other.get_number_of_particles()):
+                    key = self.keys[d][j]
+                    if j > 0 and key == self.keys[d][j-1]:
+                        continue
+                    if current_key_to_idx[key] != -1:
+                        # array i has particles in this cell: done above
+                        continue
+                    pid = self.pids[d][j]
+                    cid = self.cids[d][pid]
+
+                    find_cell_id_raw(
+                        other.x.data[pid] - xmin[0],
+                        other.y.data[pid] - xmin[1],
+                        other.z.data[pid] - xmin[2],
+                        self.h_sub,
+                        &c_x, &c_y, &c_z
+                        )
+
+                    num_boxes = self._neighbor_boxes_func(c_x, c_y, c_z,
+                            current_key_to_idx, current_cids, current_hmax,
+                            num_particles, found_indices, current_hmax[cid])
+
+                    for k in range(num_boxes):
+                        current_nbr_boxes[self.mask_len*cid + k] = found_indices[k]
 
         free(found_indices)
 
